@@ -250,7 +250,113 @@ def check_digits(facts, c):
                 c.check(a.lower() == lower, wf, "alphabet36-order:%s" % w, "%s: 36-digit alphabet %r is not 0-9a-z in order" % (w, a), fn=w)
         c.check(kinds == {"lower", "upper", "mixed"}, wf, "alphabet-kinds:%s" % w,
                 "%s must have a lower-case, an upper-case and a 62-digit alphabet; found %s" % (w, sorted(kinds)), fn=w)
+    alphabet_selection(c, writers, lower, upper, mixed)
     c.res["samples"].append(dict(rule="R-TABLES", table="__gmp_digit_value_tab", writers=sorted(writers), entries=480))
+
+
+def alphabet_selection(c, writers, lower, upper, mixed):
+    """Which alphabet does each output function pick for each base?  The dispatch at the head of mpz_get_str / mpz_out_str /
+    mpf_get_str only tests and rewrites the int parameter `base` and assigns string literals to one local; it is evaluated for
+    every base of the documented ranges (2..36 lower case, 37..62 digits-upper-lower, -2..-36 upper case) by following the CFG with
+    the base known, branching both ways on conditions about anything else, until the first call or return."""
+    import sa
+    ex = sa.export(sa.cfg_builtfx())
+    byname = {}
+    for path, fn in ex.functions():
+        if fn["name"] in writers and relpath(path) == writers[fn["name"]]:
+            byname[fn["name"]] = fn
+    for w, wf in writers.items():
+        fn = byname.get(w)
+        if fn is None:
+            raise AnalysisBroken("R-TABLES: %s not found in %s" % (w, wf))
+        bases = [p for p in fn["params"] if p.get("name") == "base" and p.get("ct") == "int"]
+        text_ids = set()
+        for b in fn["blocks"]:
+            for el in b["elems"]:
+                e = el["e"]
+                if e.get("k") == "binop" and e["op"] == "=" and e["l"].get("k") == "var" and isinstance(e["r"], dict) and e["r"].get("k") == "str" \
+                        and e["r"].get("len") in (36, 62):
+                    text_ids.add(e["l"]["id"])
+        if len(bases) != 1 or len(text_ids) != 1:
+            raise AnalysisBroken("R-TABLES: cannot identify the base parameter / alphabet variable of %s" % w)
+        bid, tid = bases[0]["id"], next(iter(text_ids))
+        blocks = sa.blocks_by_id(fn)
+
+        def ev(e, env):
+            while isinstance(e, dict) and e.get("k") == "cast":
+                e = e["e"]
+            if not isinstance(e, dict):
+                return None
+            k = e.get("k")
+            if k == "int":
+                return e["v"]
+            if k == "var":
+                return env.get(e["id"])
+            if k == "unop" and e["op"] == "-":
+                v = ev(e["e"], env)
+                return None if v is None else -v
+            if k == "unop" and e["op"] == "!":
+                v = ev(e["e"], env)
+                return None if v is None else int(not v)
+            if k == "binop" and e["op"] in ("+", "-", "<", ">", "<=", ">=", "==", "!="):
+                l, r = ev(e["l"], env), ev(e["r"], env)
+                if l is None or r is None:
+                    return None
+                return {"+": l + r, "-": l - r, "<": int(l < r), ">": int(l > r), "<=": int(l <= r), ">=": int(l >= r),
+                        "==": int(l == r), "!=": int(l != r)}[e["op"]]
+            return None
+
+        def explore(b0):
+            out = set()
+            todo = [(fn["entry"], b0, None, 0)]
+            while todo:
+                cur, base, text, depth = todo.pop()
+                if depth > 60:
+                    out.add(("?", text))
+                    continue
+                b = blocks[cur]
+                env = {bid: base}
+                stop = False
+                for el in b["elems"]:
+                    e = el["e"]
+                    k = e.get("k")
+                    if k == "call":
+                        out.add(("work", text))
+                        stop = True
+                        break
+                    if k == "return":
+                        out.add(("return", text))
+                        stop = True
+                        break
+                    if k == "binop" and e["op"] == "=" and e["l"].get("k") == "var":
+                        if e["l"]["id"] == bid:
+                            env[bid] = ev(e["r"], env)
+                        elif e["l"]["id"] == tid:
+                            r = e["r"]
+                            text = r["v"].encode("latin1") if isinstance(r, dict) and r.get("k") == "str" else b"?"
+                if stop or b.get("noreturn"):
+                    continue
+                base = env[bid]
+                succs = [s_ for s_ in b["succs"] if isinstance(s_, int)]
+                t = b.get("term")
+                if t and t.get("cond") and len(b["succs"]) == 2:
+                    v = ev(sa.strip_expect(sa.effective_cond(t)), env) if base is not None else None
+                    if v is not None:
+                        succs = [b["succs"][0] if v else b["succs"][1]]
+                for s_ in succs:
+                    if isinstance(s_, int):
+                        if s_ == fn["exit"]:
+                            out.add(("return", text))
+                        else:
+                            todo.append((s_, base, text, depth + 1))
+            return out
+        for base in list(range(2, 63)) + list(range(-36, -1)):
+            want = lower if 2 <= base <= 36 else (mixed if base >= 37 else upper)
+            got = explore(base)
+            texts = {t for kind, t in got if kind == "work"}
+            c.check(texts == {want}, wf, "alphabet-for-base:%s:%d" % (w, base),
+                    "%s converts with %s for base %d, the manual prescribes %r" % (w, sorted(x.decode("latin1") if x else "no alphabet / return" for x in texts) or
+                                                                                   "no conversion (returns)", base, want.decode("latin1")), fn=w)
 
 
 def check_comb(facts, c, macro_units):
